@@ -1,5 +1,5 @@
 (* C01 / C02 / C04 driver (Model/Setup.v).
-   line: req TAB world TAB flavor,root,maxdepth TAB env TAB aliases TAB decisions TAB name TAB fwd TAB just TAB fuel
+   line: req TAB world TAB flavor,root,maxdepth,keep TAB env TAB aliases TAB decisions TAB name TAB fwd TAB just TAB fuel
      world     = product|product...      product = name:version:dir:act+act...
      act       = S,opt,name,just | P,append,var,value,delim | E,var,value | U,var | A,name,value | N
      decisions = v,v,!,...               (! = not found)
@@ -30,8 +30,9 @@ let dec_product (s : Stdlib.String.t) : product =
 
 let dec_cfg (s : Stdlib.String.t) : config =
   match Stdlib.String.split_on_char ',' s with
-  | [f; r; m] -> { c_flavor = dec_str f; c_root = dec_str r;
-                   c_max_depth = (if m = "-" then None else Some (nat_of_int (int_of_string m))) }
+  | [f; r; m; k] -> { c_flavor = dec_str f; c_root = dec_str r;
+                      c_max_depth = (if m = "-" then None else Some (nat_of_int (int_of_string m)));
+                      c_keep = bool_of_field k }
   | _ -> failwith "bad cfg"
 
 let dec_decisions (s : Stdlib.String.t) : (ascii list) option list =
